@@ -175,6 +175,10 @@ def run(p, led, tier):
 
 
 # ----------------------------------------------------------------------
+def _symv(v):
+    return getattr(v, 'sym', repr(v))
+
+
 def _sequential_table(p, led, tier, cascade, runfi):
     """Cascade.run interpreted (fdai) on every pipeline shape with adversarial gates, processors and error handlers"""
     from ..fdai import Interp, Obj, Unknown, PyRaise, ExcVal, explore, Imprecise, stub
@@ -360,6 +364,53 @@ def _sequential_table(p, led, tier, cascade, runfi):
                             probs["C19-R4"].append(f"{tag}: completed stages {[i for i in range(len(combo)) if status[i] == 'completed']} with factors {FACTORS} (max {MAXAMP}): total amplification {r['amp']}, the clamped running product is {want}")
                     else:
                         probs["C19-R4"].append(f"{tag}: total amplification is not a number ({r['amp']!r})")
+    # ---- overlapping runs of one cascade: a stage's processor pushes a sub-item through the same cascade.  Each run's gates
+    # must be asked about that run's own signal (nothing about "the current run" may live on the instance)
+    def go_re(o):
+        it = Interp(p, o)
+        log = []
+        depth = {"d": 0}
+        casc = it.instantiate(cascade, ["c"], dict(halt_on_failure=True, max_amplification=MAXAMP, silent=True))
+        for i in range(2):
+            def mk(i=i):
+                @stub
+                def cp(interp, args, kwargs):
+                    log.append(("cp", depth["d"], i, args[0]))
+                    return True
+
+                @stub
+                def proc(interp, args, kwargs):
+                    d = depth["d"]
+                    log.append(("proc", d, i, args[0]))
+                    if i == 0 and d == 0:
+                        depth["d"] = 1
+                        try:
+                            interp.call_fi(runfi, [casc, Unknown("inner signal")], {})
+                        finally:
+                            depth["d"] = 0
+                    return Unknown(f"out{d}.{i}")
+                return cp, proc
+            cp, proc = mk()
+            it.call_fi(p.find_method(cascade, "add_stage"), [casc, it.instantiate(stage_cls, [], dict(name=f"s{i}", processor=proc, amplification=1.0, checkpoint=cp, required=True))], {})
+        try:
+            it.call_fi(runfi, [casc, Unknown("outer signal")], {})
+        except PyRaise as e:
+            return dict(raised=repr(e.exc), log=log)
+        return dict(log=log)
+    try:
+        re_paths = [r for _, r in explore(go_re, max_paths=200)]
+    except Imprecise as e:
+        re_paths = []
+        led.info(f"re-entrant run scenario not interpreted ({e})")
+    for r in re_paths:
+        lg = r["log"]
+        for j, ev in enumerate(lg):
+            if ev[0] == "proc":
+                g = [e for e in lg[:j] if e[0] == "cp" and e[1] == ev[1] and e[2] == ev[2]]
+                if not g:
+                    probs["C19-R1"].append(f"overlapping runs (a processor re-enters run() on the same cascade): stage {ev[2]} of the {'inner' if ev[1] else 'outer'} run processed a signal without its gate having been asked")
+                elif g[-1][3] is not ev[3]:
+                    probs["C19-R1"].append(f"overlapping runs (a processor re-enters run() on the same cascade): the gate of stage {ev[2]} of the {'inner' if ev[1] else 'outer'} run was asked about {_symv(g[-1][3])}, the stage processed {_symv(ev[3])}")
     titles = {"C19-R1": "Cascade.run ▸ processor only after its checkpoint passed on the same signal",
               "C19-R2": "Cascade.run ▸ halt ▸ a closed / crashing gate or a failed required stage stops the pipeline; run never raises",
               "C19-R3": "Cascade.run ▸ success ⇒ every stage completed and nothing blocked; output released only under success",
